@@ -1241,6 +1241,285 @@ impl<T> MethodMatcher<T> {
 }
 //@@ unrename HeaderMatcher
 
+// ================================================================ header layer (one bucket per SET of header conditions)
+use std::collections::BTreeSet;
+pub uninterp spec fn lowerc(s: Seq<char>) -> Seq<char>;
+pub assume_specification [str::to_lowercase] (s: &str) -> (r: std::string::String) ensures r@ == lowerc(s@);
+//@@ item src/router/route_header.rs :: enum RouteHeaderKind
+//@@ item src/router/route_header.rs :: struct RouteHeader
+//@@ item src/router/request_matcher/header.rs :: enum ValueCondition
+//@| opt keepderive:PartialEq,Eq,PartialOrd,Ord
+//@@ item src/router/request_matcher/header.rs :: struct HeaderCondition
+//@| opt keepderive:PartialEq,Eq,PartialOrd,Ord
+// R1: derived Clone re-stated structurally (a clone is an equal value)
+impl Clone for ValueCondition {
+    fn clone(&self) -> (r: Self) ensures r == *self {
+        proof { axiom_string_ext(); }
+        match self {
+            ValueCondition::IsDefined => ValueCondition::IsDefined,
+            ValueCondition::IsNotDefined => ValueCondition::IsNotDefined,
+            ValueCondition::IsEquals(s) => ValueCondition::IsEquals(s.clone()),
+            ValueCondition::IsNotEqualTo(s) => ValueCondition::IsNotEqualTo(s.clone()),
+            ValueCondition::Contains(s) => ValueCondition::Contains(s.clone()),
+            ValueCondition::DoesNotContain(s) => ValueCondition::DoesNotContain(s.clone()),
+            ValueCondition::EndsWith(s) => ValueCondition::EndsWith(s.clone()),
+            ValueCondition::StartsWith(s) => ValueCondition::StartsWith(s.clone()),
+            ValueCondition::MatchRegex(s) => ValueCondition::MatchRegex(s.clone()),
+        }
+    }
+}
+impl Clone for HeaderCondition {
+    fn clone(&self) -> (r: Self) ensures r == *self {
+        proof { axiom_string_ext(); }
+        HeaderCondition { header_name: self.header_name.clone(), condition: self.condition.clone() }
+    }
+}
+// ASSUMED (trusted, listed): the derived Ord of these key types is a total order consistent with Eq (BTreeMap / BTreeSet key model);
+// a BTreeSet is determined by its elements; cloning a BTreeSet yields an equal set
+#[verifier::external_body] pub broadcast proof fn axiom_hc_key() ensures #[trigger] vstd::std_specs::btree::key_obeys_cmp_spec::<HeaderCondition>() {}
+#[verifier::external_body] pub broadcast proof fn axiom_hcset_key() ensures #[trigger] vstd::std_specs::btree::key_obeys_cmp_spec::<BTreeSet<HeaderCondition>>() {}
+#[verifier::external_body] pub proof fn axiom_hcset_ext() ensures forall|a: BTreeSet<HeaderCondition>, b: BTreeSet<HeaderCondition>| #[trigger] a@ == #[trigger] b@ ==> a == b {}
+#[verifier::external_body] pub fn outl_hcset_clone(s: &BTreeSet<HeaderCondition>) -> (r: BTreeSet<HeaderCondition>) ensures r == *s { /* verbatim: condition_group.clone() */ s.clone() }
+pub uninterp spec fn rheaders<T>(r: Route<T>) -> Seq<RouteHeader>;
+pub open spec fn rheaders_of<T>(x: RouteRef<T>) -> Seq<RouteHeader> { rheaders(*x) }
+impl<T> Route<T> {
+    #[verifier::external_body] pub fn headers(&self) -> (r: &Vec<RouteHeader>) ensures r@ == rheaders(*self) { unimplemented!() }
+}
+// statement of C01 for the header trigger: the condition a header trigger denotes (name compared case-insensitively)
+pub open spec fn kind_cond(k: RouteHeaderKind, c: ValueCondition) -> bool {
+    match (k, c) {
+        (RouteHeaderKind::IsDefined, ValueCondition::IsDefined) => true,
+        (RouteHeaderKind::IsNotDefined, ValueCondition::IsNotDefined) => true,
+        (RouteHeaderKind::IsEquals(a), ValueCondition::IsEquals(b)) => a@ == b@,
+        (RouteHeaderKind::IsNotEqualTo(a), ValueCondition::IsNotEqualTo(b)) => a@ == b@,
+        (RouteHeaderKind::Contains(a), ValueCondition::Contains(b)) => a@ == b@,
+        (RouteHeaderKind::DoesNotContain(a), ValueCondition::DoesNotContain(b)) => a@ == b@,
+        (RouteHeaderKind::EndsWith(a), ValueCondition::EndsWith(b)) => a@ == b@,
+        (RouteHeaderKind::StartsWith(a), ValueCondition::StartsWith(b)) => a@ == b@,
+        (RouteHeaderKind::MatchRegex(m), ValueCondition::MatchRegex(b)) => m.regex@ == b@,
+        _ => false,
+    }
+}
+pub open spec fn is_cond_of(c: HeaderCondition, h: RouteHeader) -> bool { c.header_name@ == lowerc(h.name@) && kind_cond(h.kind, c.condition) }
+// the bucket key of a route: exactly the conditions its header triggers denote
+pub open spec fn group_of(k: Set<HeaderCondition>, hs: Seq<RouteHeader>) -> bool {
+    forall|c: HeaderCondition| #[trigger] k.contains(c) <==> exists|i: int| 0 <= i < hs.len() && is_cond_of(c, #[trigger] hs[i])
+}
+pub open spec fn hdr_kf<T>() -> spec_fn(BTreeSet<HeaderCondition>, RouteRef<T>) -> bool { |k: BTreeSet<HeaderCondition>, x: RouteRef<T>| rheaders(*x).len() > 0 && group_of(k@, rheaders(*x)) }
+//@@ rename DateTimeMatcher Sub
+//@@ item src/router/request_matcher/header.rs :: struct HeaderMatcher
+impl<T> HeaderMatcher<T> {
+    pub open spec fn sholds(&self, x: RouteRef<T>) -> bool { self.any_header.holds(x) || map_holds(self.condition_groups@, x) }
+    pub open spec fn counted(&self) -> bool { exists|s: Set<RouteRef<T>>| #[trigger] s.len() <= self.count && forall|x: RouteRef<T>| s.contains(x) <==> self.sholds(x) }
+    pub open spec fn swf(&self) -> bool {
+        &&& self.any_header.wf() && map_wf(self.condition_groups@)
+        &&& self.counted()
+        &&& forall|x: RouteRef<T>, y: RouteRef<T>| #[trigger] self.sholds(x) && #[trigger] self.sholds(y) && rid(*x) == rid(*y) ==> x == y
+        // bucket-key consistency (C01): a rule is filed under exactly the set of conditions its header triggers denote; rules without
+        // header trigger under "any"
+        &&& map_keyed(self.condition_groups@, hdr_kf::<T>())
+        &&& forall|x: RouteRef<T>| #[trigger] self.any_header.holds(x) ==> rheaders(*x).len() == 0
+    }
+}
+impl<T> Store<T> for HeaderMatcher<T> {
+    open spec fn holds(&self, x: RouteRef<T>) -> bool { self.sholds(x) }
+    open spec fn cnt(&self) -> nat { self.count as nat }
+    open spec fn wf(&self) -> bool { self.swf() }
+}
+pub proof fn lemma_hdr_uniq_bridge<T>(n: HeaderMatcher<T>)
+    requires uniq(n),
+    ensures forall|x: RouteRef<T>, y: RouteRef<T>| #[trigger] n.sholds(x) && #[trigger] n.sholds(y) && rid(*x) == rid(*y) ==> x == y,
+{
+    assert forall|x: RouteRef<T>, y: RouteRef<T>| #[trigger] n.sholds(x) && #[trigger] n.sholds(y) && rid(*x) == rid(*y) implies x == y by { assert(n.holds(x) && n.holds(y)); }
+}
+pub proof fn lemma_hdr_wf<T>(s: HeaderMatcher<T>)
+    requires s.wf(),
+    ensures uniq(s), s.cnt() == 0 ==> forall|x: RouteRef<T>| !s.holds(x), s.cnt() <= usize::MAX,
+{
+    let w = choose|w: Set<RouteRef<T>>| #[trigger] w.len() <= s.count && forall|x: RouteRef<T>| w.contains(x) <==> s.sholds(x);
+    if s.count == 0 { assert forall|x: RouteRef<T>| !s.holds(x) by { if s.sholds(x) { assert(w.contains(x)); assert(w.len() > 0) by { if w.len() == 0 { assert(w =~= Set::<RouteRef<T>>::empty()); } } } } }
+}
+pub proof fn lemma_hdr_counted_insert<T>(o: HeaderMatcher<T>, n: HeaderMatcher<T>, rt: RouteRef<T>)
+    requires o.counted(), n.count == o.count + 1, forall|x: RouteRef<T>| #![trigger n.sholds(x)] n.sholds(x) <==> o.sholds(x) || x == rt,
+    ensures n.counted(),
+{
+    let w = choose|w: Set<RouteRef<T>>| #[trigger] w.len() <= o.count && forall|x: RouteRef<T>| w.contains(x) <==> o.sholds(x);
+    let w2 = w.insert(rt);
+    assert(w2.len() <= n.count && forall|x: RouteRef<T>| w2.contains(x) <==> n.sholds(x));
+}
+pub proof fn lemma_hdr_counted_sub<T>(o: HeaderMatcher<T>, n: HeaderMatcher<T>, dec: bool)
+    requires o.counted(), forall|x: RouteRef<T>| #[trigger] n.sholds(x) ==> o.sholds(x),
+        !dec ==> n.count == o.count,
+        dec ==> n.count + 1 == o.count && exists|x0: RouteRef<T>| o.sholds(x0) && !n.sholds(x0),
+    ensures n.counted(),
+{
+    let w = choose|w: Set<RouteRef<T>>| #[trigger] w.len() <= o.count && forall|x: RouteRef<T>| w.contains(x) <==> o.sholds(x);
+    let w2 = w.filter(|x: RouteRef<T>| n.sholds(x));
+    w.lemma_len_filter(|x: RouteRef<T>| n.sholds(x));
+    assert forall|x: RouteRef<T>| w2.contains(x) <==> n.sholds(x) by {}
+    if dec {
+        let x0 = choose|x0: RouteRef<T>| o.sholds(x0) && !n.sholds(x0);
+        assert(w.contains(x0) && !w2.contains(x0));
+        assert(w2.subset_of(w.remove(x0)));
+        vstd::set_lib::lemma_len_subset(w2, w.remove(x0));
+    }
+    assert(w2.len() <= n.count);
+}
+
+pub proof fn lemma_hdr_inserted<T>(o: HeaderMatcher<T>, n: HeaderMatcher<T>, rt: RouteRef<T>)
+    requires o.wf(), forall|x: RouteRef<T>| o.holds(x) ==> rid(*x) != rid(*rt), n.count == o.count + 1,
+        n.any_header.wf(), map_wf(n.condition_groups@), map_keyed(n.condition_groups@, hdr_kf::<T>()),
+        forall|x: RouteRef<T>| #![trigger n.sholds(x)] n.sholds(x) <==> o.sholds(x) || x == rt,
+        forall|x: RouteRef<T>| #[trigger] n.any_header.holds(x) ==> rheaders(*x).len() == 0,
+    ensures inserted_rel(o, n, rt),
+{
+    lemma_hdr_counted_insert(o, n, rt);
+    assert forall|x: RouteRef<T>| #![trigger n.holds(x)] #![trigger o.holds(x)] n.holds(x) <==> o.holds(x) || x == rt by {}
+    lemma_uniq_inserted(o, n, rt); lemma_hdr_uniq_bridge(n);
+}
+
+// ASSUMED specification of BTreeMap::retain (vstd has none): same shape as HashMap::retain
+pub assume_specification<K: std::cmp::Ord, V, A: std::alloc::Allocator + Clone, F: FnMut(&K, &mut V) -> bool> [std::collections::BTreeMap::<K, V, A>::retain] (m: &mut std::collections::BTreeMap<K, V, A>, f: F)
+    requires forall|k: &K, v: &mut V| old(m)@.contains_key(*k) && *v == old(m)@[*k] ==> #[trigger] f.requires((k, v)),
+    ensures
+        forall|k: K| #[trigger] final(m)@.contains_key(k) ==> old(m)@.contains_key(k) && exists|v: &mut V| *v == old(m)@[k] && *final(v) == final(m)@[k] && #[trigger] f.ensures((&k, v), true),
+        forall|k: K| old(m)@.contains_key(k) && !#[trigger] final(m)@.contains_key(k) ==> exists|v: &mut V| *v == old(m)@[k] && #[trigger] f.ensures((&k, v), false);
+// R8 outline, ASSUMED contract: the retain-with-captured-assignment statement on a BTreeMap of buckets (same summary as outl_retain_remove)
+#[verifier::external_body]
+pub fn outl_btree_retain_remove<K, T>(m: &mut BTreeMap<K, Sub<T>>, id: &str, removed: &mut Option<RouteRef<T>>)
+    requires map_wf(old(m)@),
+    ensures entries_removed(old(m)@, final(m)@, id@),
+        map_holds_id(old(m)@, id@) ==> (*final(removed) matches Some(x) && rid(*x) == id@ && map_holds(old(m)@, x)),
+        !map_holds_id(old(m)@, id@) ==> *final(removed) == *old(removed),
+{
+    /* verbatim: self.condition_groups.retain(|_, matcher| { if let Some(value) = matcher.remove(id) { removed = Some(value); } !matcher.is_empty() }); */
+    unimplemented!()
+}
+pub proof fn lemma_hdr_removed_any<T>(o: HeaderMatcher<T>, n: HeaderMatcher<T>, id: Seq<char>, x0: RouteRef<T>)
+    requires o.wf(), n.condition_groups@ == o.condition_groups@, removed_rel(o.any_header, n.any_header, id, Some(x0)), n.count + 1 == o.count,
+    ensures removed_rel(o, n, id, Some(x0)),
+{
+    assert(o.holds(x0));
+    assert forall|y: RouteRef<T>| #![trigger n.holds(y)] #![trigger o.holds(y)] n.holds(y) <==> o.holds(y) && rid(*y) != id by { if o.holds(y) && rid(*y) == id { assert(y == x0); } }
+    lemma_uniq_subset(o, n); lemma_hdr_uniq_bridge(n);
+    assert(o.sholds(x0) && !n.sholds(x0));
+    lemma_hdr_counted_sub(o, n, true);
+    assert forall|x: RouteRef<T>| #[trigger] n.any_header.holds(x) implies rheaders(*x).len() == 0 by { assert(o.any_header.holds(x)); }
+}
+pub proof fn lemma_hdr_removed<T>(o: HeaderMatcher<T>, n: HeaderMatcher<T>, id: Seq<char>, r: Option<RouteRef<T>>)
+    requires o.wf(), removed_rel(o.any_header, n.any_header, id, None::<RouteRef<T>>), entries_removed(o.condition_groups@, n.condition_groups@, id),
+        r matches Some(x) ==> rid(*x) == id && map_holds(o.condition_groups@, x), r is None ==> !map_holds_id(o.condition_groups@, id),
+        n.count + (if r is Some { 1int } else { 0int }) == o.count,
+    ensures removed_rel(o, n, id, r),
+{
+    lemma_sub_empty::<T>();
+    lemma_map_removed_holds(o.condition_groups@, n.condition_groups@, id, hdr_kf::<T>());
+    assert forall|y: RouteRef<T>| #![trigger n.holds(y)] #![trigger o.holds(y)] n.holds(y) <==> o.holds(y) && rid(*y) != id by {
+        if o.any_header.holds(y) { assert(holds_id(o.any_header, id) || rid(*y) != id); }
+    }
+    if r is Some { let x = r.unwrap(); assert(o.holds(x)); assert(o.sholds(x) && !n.sholds(x)); }
+    else {
+        assert forall|y: RouteRef<T>| #[trigger] o.holds(y) implies rid(*y) != id by {
+            if o.any_header.holds(y) { assert(holds_id(o.any_header, id) || rid(*y) != id); }
+            if map_holds(o.condition_groups@, y) { let k = choose|k: BTreeSet<HeaderCondition>| o.condition_groups@.contains_key(k) && #[trigger] o.condition_groups@[k].holds(y); assert(map_holds_id(o.condition_groups@, id) || rid(*y) != id); }
+        }
+    }
+    lemma_uniq_subset(o, n); lemma_hdr_uniq_bridge(n);
+    lemma_hdr_counted_sub(o, n, r is Some);
+    assert forall|x: RouteRef<T>| #[trigger] n.any_header.holds(x) implies rheaders(*x).len() == 0 by { assert(o.any_header.holds(x)); }
+}
+pub proof fn lemma_hdr_batched<T>(o: HeaderMatcher<T>, n: HeaderMatcher<T>, ids: Set<String>)
+    requires o.wf(), batched_rel(o.any_header, n.any_header, ids), entries_batched(o.condition_groups@, n.condition_groups@, ids), n.count == o.count,
+    ensures batched_rel(o, n, ids),
+{
+    lemma_sub_empty::<T>();
+    lemma_map_batched(o.condition_groups@, n.condition_groups@, ids, hdr_kf::<T>());
+    assert forall|y: RouteRef<T>| #![trigger n.holds(y)] #![trigger o.holds(y)] n.holds(y) <==> o.holds(y) && !ids_has(ids, rid(*y)) by {}
+    lemma_uniq_subset(o, n); lemma_hdr_uniq_bridge(n);
+    lemma_hdr_counted_sub(o, n, false);
+    assert forall|x: RouteRef<T>| #[trigger] n.any_header.holds(x) implies rheaders(*x).len() == 0 by { assert(o.any_header.holds(x)); }
+}
+impl<T> HeaderMatcher<T> {
+    //@@ fn src/router/request_matcher/header.rs :: impl <T>HeaderMatcher<T> / fn new -> r
+    //@| ensures r.wf(), r.cnt() == 0, forall|x: RouteRef<T>| !r.holds(x),
+    //@| entry broadcast use vstd::std_specs::btree::group_btree_axioms; broadcast use axiom_hc_key; broadcast use axiom_hcset_key;
+    //@| exit proof { let w = Set::<RouteRef<T>>::empty(); assert(w.len() <= vf_ret.count && forall|x: RouteRef<T>| w.contains(x) <==> vf_ret.sholds(x)); }
+
+    //@@ fn src/router/request_matcher/header.rs :: impl <T>HeaderMatcher<T> / fn insert
+    //@| requires old(self).wf(), old(self).cnt() < usize::MAX, forall|x: RouteRef<T>| old(self).holds(x) ==> rid(*x) != rid(*route),
+    //@|     old(self).any_header.cnt() < usize::MAX, forall|k: BTreeSet<HeaderCondition>| old(self).condition_groups@.contains_key(k) ==> (#[trigger] old(self).condition_groups@[k]).cnt() < usize::MAX,
+    //@| ensures inserted_rel(*old(self), *final(self), route),
+    //@| attr #[verifier::loop_isolation(false)]
+    //@| outline `condition_group.clone()` => `outl_hcset_clone(&condition_group)`
+    //@| entry broadcast use vstd::std_specs::btree::group_btree_axioms; broadcast use axiom_hc_key; broadcast use axiom_hcset_key; broadcast use axiom_arc_cloned;
+    //@|     let ghost m0 = self.condition_groups@; let ghost rt = route; let ghost kf = hdr_kf::<T>(); let ghost hs = rheaders_of(rt);
+    //@|     proof { axiom_string_ext(); axiom_hcset_ext(); }
+    //@| before `return;`: proof {
+    //@|     assert forall|x: RouteRef<T>| #![trigger self.sholds(x)] self.sholds(x) <==> old(self).sholds(x) || x == rt by {}
+    //@|     assert forall|x: RouteRef<T>| #[trigger] self.any_header.holds(x) implies rheaders(*x).len() == 0 by { if x != rt { assert(old(self).any_header.holds(x)); } }
+    //@|     lemma_hdr_inserted(*old(self), *self, rt);
+    //@| }
+    //@| forlabel 0: it
+    //@| loop 0: invariant iter_ref_ok(it.history@, it.index@, it.snapshot@.remaining(), hs), route == rt, hs == rheaders(*rt),
+    //@|     self.any_header == old(self).any_header, self.condition_groups@ == m0, self.count == old(self).count + 1,
+    //@|     group_of(condition_group@, hs.take(it.index@)),
+    //@| loophead 0: let ghost k = it.index@ as int; let ghost g0 = condition_group@; proof { assert(*header == hs[k]); }
+    //@| looptail 0: proof {
+    //@|     let c = header_condition;
+    //@|     assert(is_cond_of(c, hs[k]));
+    //@|     assert forall|d: HeaderCondition| #[trigger] condition_group@.contains(d) <==> exists|i: int| 0 <= i < k + 1 && is_cond_of(d, #[trigger] hs.take(k + 1)[i]) by {
+    //@|         if condition_group@.contains(d) && d != c { assert(g0.contains(d)); let i = choose|i: int| 0 <= i < k && is_cond_of(d, #[trigger] hs.take(k)[i]); assert(hs.take(k + 1)[i] == hs.take(k)[i]); }
+    //@|         if d == c { assert(hs.take(k + 1)[k] == hs[k]); }
+    //@|         if exists|i: int| 0 <= i < k + 1 && is_cond_of(d, #[trigger] hs.take(k + 1)[i]) { let i = choose|i: int| 0 <= i < k + 1 && is_cond_of(d, #[trigger] hs.take(k + 1)[i]);
+    //@|             if i < k { assert(hs.take(k)[i] == hs.take(k + 1)[i]); assert(g0.contains(d)); } else { lemma_cond_unique(d, c, hs[k]); } }
+    //@|     }
+    //@| }
+    //@| before `let matcher = self.condition_groups.get_mut(&condition_group).unwrap();`: let ghost m1 = self.condition_groups@; let ghost key = condition_group;
+    //@|     proof {
+    //@|         assert(hs.take(hs.len() as int) =~= hs);
+    //@|         assert(kf(key, rt));
+    //@|         assert(m1.contains_key(key) && m1[key].wf()); lemma_sub_wf(m1[key]);
+    //@|         if m0.contains_key(key) { assert(m1 == m0); assert forall|x: RouteRef<T>| m1[key].holds(x) implies rid(*x) != rid(*route) by { assert(map_holds(m0, x)); assert(old(self).sholds(x)); assert(old(self).holds(x)); } }
+    //@|         else { assert(m1 == m0.insert(key, m1[key])); }
+    //@|     }
+    //@| exit proof {
+    //@|     assert(self.condition_groups@ =~= m0.insert(key, self.condition_groups@[key]));
+    //@|     lemma_map_inserted(m0, self.condition_groups@, key, rt, kf);
+    //@|     assert forall|x: RouteRef<T>| #![trigger self.sholds(x)] self.sholds(x) <==> old(self).sholds(x) || x == rt by {}
+    //@|     assert forall|x: RouteRef<T>| #[trigger] self.any_header.holds(x) implies rheaders(*x).len() == 0 by { assert(old(self).any_header.holds(x)); }
+    //@|     lemma_hdr_inserted(*old(self), *self, rt);
+    //@| }
+
+    //@@ fn src/router/request_matcher/header.rs :: impl <T>HeaderMatcher<T> / fn remove -> r
+    //@| requires old(self).wf(),
+    //@| ensures removed_rel(*old(self), *final(self), id@, r),
+    //@| outline `self.condition_groups.retain(|_, matcher| { if let Some(value) = matcher.remove(id) { removed = Some(value); } !matcher.is_empty() });` => `outl_btree_retain_remove(&mut self.condition_groups, id, &mut removed);`
+    //@| entry broadcast use vstd::std_specs::btree::group_btree_axioms; broadcast use axiom_hc_key; broadcast use axiom_hcset_key;
+    //@|     proof { lemma_hdr_wf(*self); }
+    //@| before `self.count -= 1;`#0: proof { assert(old(self).any_header.holds(removed.unwrap())); assert(old(self).sholds(removed.unwrap())); assert(old(self).holds(removed.unwrap())); }
+    //@| before `return removed;`: proof { lemma_hdr_removed_any(*old(self), *self, id@, removed.unwrap()); }
+    //@| before `if removed.is_some() {`#1: proof { if removed is Some { assert(old(self).sholds(removed.unwrap())); assert(old(self).holds(removed.unwrap())); } }
+    //@| exit proof { lemma_hdr_removed(*old(self), *self, id@, removed); }
+
+    //@@ fn src/router/request_matcher/header.rs :: impl <T>HeaderMatcher<T> / fn batch_remove -> r
+    //@| requires old(self).wf(),
+    //@| ensures batched_rel(*old(self), *final(self), ids@),
+    //@| closure `|_, matcher|` => `|_k: &BTreeSet<HeaderCondition>, matcher: &mut Sub<T>| -> (b: bool) requires old(matcher).wf() ensures batched_rel(*old(matcher), *final(matcher), ids@), !b ==> final(matcher).cnt() == 0`
+    //@| entry broadcast use vstd::std_specs::btree::group_btree_axioms; broadcast use axiom_hc_key; broadcast use axiom_hcset_key;
+    //@| exit proof { lemma_hdr_batched(*old(self), *self, ids@); }
+
+    //@@ fn src/router/request_matcher/header.rs :: impl <T>HeaderMatcher<T> / fn len -> r
+    //@| ensures r == self.cnt(),
+    //@@ fn src/router/request_matcher/header.rs :: impl <T>HeaderMatcher<T> / fn is_empty -> r
+    //@| ensures r == (self.cnt() == 0),
+}
+//@@ unrename DateTimeMatcher
+// a header trigger denotes exactly one condition
+pub proof fn lemma_cond_unique(a: HeaderCondition, b: HeaderCondition, h: RouteHeader)
+    requires is_cond_of(a, h), is_cond_of(b, h),
+    ensures a == b,
+{ axiom_string_ext(); }
+
 // ================================================================ Router (src/router/mod.rs)
 //@@ rename SchemeMatcher Sub
 //@@ item src/router/mod.rs :: struct Router
